@@ -307,6 +307,10 @@ class Interp:
                 return self.bind(cattr, obj, obj.cls)
             if name == "__class__":
                 return obj.cls
+            if getattr(obj, "layout", None) is not None:
+                # a specification-built valid instance (symlayout.Spec.new) carries exactly the attributes its layout view
+                # names; state the class keeps besides those is outside the specification: undecided, not an AttributeError
+                raise OutOfReach(f"attribute {name} of a specification-built {obj.cls.name}: state outside the layout view")
             self.raise_("AttributeError", f"{obj.cls.name} has no attribute {name}")
         if isinstance(obj, ClassModel):
             if name == "__name__":
@@ -536,10 +540,76 @@ class Interp:
         raise OutOfReach(f"unpacking {type(v).__name__}")
 
     def s_If(self, s, env):
-        if self.truth(self.eval(s.test, env), f"if@{s.lineno}"):
+        t = self.truth_term(self.eval(s.test, env))
+        if self._guardable(s, t):
+            return self._exec_guarded(s, t, env)
+        if self.ctx.branch(t, f"if@{s.lineno}"):
             self.exec_block(s.body, env)
         else:
             self.exec_block(s.orelse, env)
+
+    _PLAIN = (ast.Expr, ast.Assign, ast.AugAssign, ast.AnnAssign, ast.Pass)
+    _JUMPS = (ast.Return, ast.Raise, ast.Break, ast.Continue, ast.Yield, ast.YieldFrom, ast.Lambda, ast.FunctionDef, ast.Try, ast.With, ast.For, ast.While)
+
+    def _guardable(self, s, t):
+        """`if c: <plain statements>` (no else) inside a summarised loop with an iteration-dependent, undecided c: executed
+        once under the assumption c with every effect made conditional on c (predicated execution) instead of forking"""
+        ctx = self.ctx
+        if not ctx.folds or s.orelse or isinstance(t, bool) or conc(t) is not None or getattr(ctx, "pure", 0):
+            return False
+        from .core import _mentions_const
+        if not any(_mentions_const(zbool(t), f[0]) for f in ctx.folds):
+            return False
+        for st in s.body:
+            if not isinstance(st, self._PLAIN) or any(isinstance(n, self._JUMPS) for n in ast.walk(st)):
+                return False
+        return not ctx.entails(t) and not ctx.entails(Not(t))
+
+    def _exec_guarded(self, s, g, env):
+        ctx = self.ctx
+        before = dict(env.vars)
+        mark = len(ctx.pc)
+        ctx.solver.push()
+        ctx.assume(g)
+        ctx.guards.append((g, mark))
+        ctx.trace.append(f"if@{s.lineno}=predicated")
+        muts = list(self.mut)
+        for m in muts:
+            h = getattr(m, "begin_guard", None)
+            if h is not None:
+                h(ctx, g)
+        try:
+            self.exec_block(s.body, env)
+        except BaseException:
+            # raised (or left the engine's reach) under the guard: on this path the guard stays assumed
+            ctx.guards.pop()
+            local = ctx.pc[mark:]
+            del ctx.pc[mark:]
+            ctx.solver.pop()
+            for f in local:
+                ctx.assume(f)
+            raise
+        ctx.guards.pop()
+        local = ctx.pc[mark + 1:]
+        del ctx.pc[mark:]
+        ctx.solver.pop()
+        for f in local:
+            ctx.assume(Implies(g, f))
+        for m in muts:
+            h = getattr(m, "end_guard", None)
+            if h is not None:
+                h(self, g)
+        for n, new in list(env.vars.items()):
+            if n not in before:
+                env.vars[n] = VOpaque(f"'{n}' (assigned only when a condition holds)")
+            elif new is not before[n]:
+                old = before[n]
+                if is_int(old) and is_int(new) and not isinstance(old, bool) and not isinstance(new, bool):
+                    env.vars[n] = If(g, zint(new), zint(old))
+                elif is_bool(old) and is_bool(new):
+                    env.vars[n] = If(g, zbool(new), zbool(old))
+                else:
+                    raise OutOfReach(f"variable {n} reassigned under a condition inside a summarised loop")
 
     def s_Raise(self, s, env):
         if s.exc is None:
@@ -799,6 +869,23 @@ class Interp:
                 if isinstance(a, int) and isinstance(b, int):
                     return a % b
                 return zint(a) % zint(b)
+            ca, cb = conc(a), conc(b)
+            if ca is not None and cb is not None and not isinstance(a, bool) and not isinstance(b, bool):
+                # bit operations and powers of concrete integers (sizes, masks, chunk lengths)
+                if isinstance(op, ast.LShift) and 0 <= cb <= 64:
+                    return ca << cb
+                if isinstance(op, ast.RShift) and cb >= 0:
+                    return ca >> cb
+                if isinstance(op, ast.BitAnd):
+                    return ca & cb
+                if isinstance(op, ast.BitOr):
+                    return ca | cb
+                if isinstance(op, ast.BitXor):
+                    return ca ^ cb
+                if isinstance(op, ast.Pow) and 0 <= cb <= 64:
+                    return ca ** cb
+            if isinstance(op, ast.LShift) and cb is not None and 0 <= cb <= 64:
+                return zint(a) * (1 << cb)
         if isinstance(a, str) and isinstance(b, str) and isinstance(op, ast.Add):
             return a + b
         if isinstance(a, tuple) and isinstance(b, tuple) and isinstance(op, ast.Add):
